@@ -502,3 +502,24 @@ def total7(ctx) -> List[Ob]:
             out.append(bad("TOTAL-7", f.qualname, key, ctx.where(f), f"{f.qualname} is (mutually) recursive ({', '.join(cyc[:4])}): the recursion depth grows with the input (RecursionError on long chains of blocks) unless it follows the region nesting"))
     out.append(ok("TOTAL-7", "<module>", "recursion census", "numba_scfg:1", f"{len(fns)} functions reachable from restructure() examined", nontrivial=False))
     return out
+
+
+@rule("TOTAL-8", 5, "writing and reading a graph never rejects it: every assert / raise reachable from to_dict, to_yaml, from_dict, from_yaml is a type narrowing, the vocabulary check of the reader, or audited")
+def total8(ctx) -> List[Ob]:
+    out: List[Ob] = []
+    cg = ctx.cg
+    roots = ctx.entry_points("io")
+    reach = [f for f in cg.reachable_from(roots) if f.qualname.startswith("SCFGIO.") or f.qualname in ("SCFG.to_dict", "SCFG.to_yaml", "SCFG.from_dict", "SCFG.from_yaml")]
+    for fn in sorted(reach, key=lambda f: f.qualname):
+        for n in A.walk_no_nested(fn.node):
+            if isinstance(n, ast.Assert):
+                key = "assert " + A.alpha_key(n.test)
+                where = ctx.where(fn, n)
+                if _is_narrowing(n.test):
+                    out.append(ok("TOTAL-8", fn.qualname, key, where, "type-narrowing assertion", nontrivial=False))
+                else:
+                    out.append(bad("TOTAL-8", fn.qualname, key, where, f"assertion '{A.unparse(n.test)[:60]}' can reject a graph while it is written or read"))
+            elif isinstance(n, ast.Raise):
+                key = "raise " + (A.alpha_key(n.exc) if n.exc is not None else "")
+                out.append(bad("TOTAL-8", fn.qualname, key, ctx.where(fn, n), f"'{A.unparse(n)[:60]}' reachable while a graph is written or read"))
+    return out
